@@ -86,8 +86,6 @@ class Enum(type):
         result: List[str] = [
             key
             for key, val in vars(cls).items()
-            if not callable(val)
-            and not key.startswith("__")
-            or not type(val).__name__ != "method"
+            if not key.startswith("__") or not type(val).__name__ != "method"
         ]
         return result
